@@ -307,6 +307,45 @@ fn forwarded_call_exec(kind: &usize, ctx: &WorkerCtx) -> ExecResult {
     })
 }
 
+/// A caller whose mailbox is full (it is busy, 1000 messages queued behind) makes a call; the server's answer has to wait
+/// for room - ten seconds here - and is then delivered once: waiting for a slow caller is not a reason to drop its answer.
+fn full_mailbox_call_exec(extra: &usize, ctx: &WorkerCtx) -> ExecResult {
+    let extra = *extra;
+    run_rt(async move {
+        let mut res = ExecResult::default();
+        let lw = match local_world(ctx).await { Ok(x) => x, Err(e) => { res.violations.push(("node could not start against the fake EPMD".into(), json!({"error": e}))); return res; } };
+        let log: Log = Arc::new(Mutex::new(vec![]));
+        let node = lw.node.clone();
+        lw.w.gates.set_active(&["proc.handle"]);
+        let caller = node.spawn(crate::procs::SlowRec { name: "caller".into(), log: log.clone(), held: false }).await.unwrap();
+        let gs = node.spawn(GenServerProcess::new(HoldEcho, node.registry())).await.unwrap();
+        let probe = { let l = log.clone(); move || l.lock().unwrap().len() as u64 };
+        // the first message parks the caller in its handler; 1000 more fill its mailbox
+        let _ = node.send(&caller, OwnedTerm::atom("first")).await;
+        settle_local(&lw.w, &probe).await;
+        let mut queued = 0usize;
+        for i in 0..(1000 + extra) {
+            let n2 = node.clone(); let c2 = caller.clone();
+            let h = tokio::spawn(async move { n2.send(&c2, OwnedTerm::Integer(i as i64)).await });
+            for _ in 0..3 { lw.w.yield_once().await; }
+            if h.is_finished() { queued += 1; }
+        }
+        let r = node.make_reference();
+        let call = OwnedTerm::Tuple(vec![OwnedTerm::atom("$gen_call"), OwnedTerm::Tuple(vec![OwnedTerm::Pid(caller.clone()), OwnedTerm::Reference(r.clone())]), OwnedTerm::atom("patience")]);
+        let _ = node.send(&gs, call).await;
+        settle_local(&lw.w, &probe).await;
+        for _ in 0..4 { tokio::time::advance(std::time::Duration::from_millis(2500)).await; settle_local(&lw.w, &probe).await; }
+        lw.w.gates.release_all_and_deactivate();
+        for _ in 0..20 { settle_local(&lw.w, &probe).await; }
+        let want = format!("msg:{}", RefVal::Tuple(vec![den_ref(&r), RefVal::Tuple(vec![RefVal::atom("echo"), RefVal::atom("patience")])]));
+        let answers = log.lock().unwrap().iter().filter(|x| x.0 == "caller" && x.1 == want).count();
+        if answers != 1 { res.violations.push(("gen_server call not answered exactly once to its caller".into(), json!({"caller_mailbox": format!("held with {} messages queued", queued), "answers_received": answers, "messages_handled_by_the_caller": log.lock().unwrap().len()}))); }
+        res.steps = 3;
+        res.outcome = format!("full mailbox call {}", extra);
+        res
+    })
+}
+
 /// Messages queued while the process is busy in its handler (held at a gate) are handled in the order they were sent,
 /// whether addressed by identifier or by registered name.
 fn queued_burst_exec(n: &usize, ctx: &WorkerCtx) -> ExecResult {
@@ -388,6 +427,26 @@ fn awkward_exit_exec(which: &usize, ctx: &WorkerCtx) -> ExecResult {
                 expect_p0.push(format!("exit:{}:", den_pid(&p1)));
                 if let Ok(r) = mon { expect_p2.push(format!("down:{}:{}:", den_pid(&p1), den_ref(&r))); }
             }
+            3 => {
+                // a terminate() callback that takes half a minute: the notices and the release of the name wait for it, they
+                // are not given up
+                
+                lw.w.gates.set_active(&["proc.terminate"]);
+                let p1 = node.spawn(SlowTerm { name: "p1".into(), log: log.clone() }).await.unwrap();
+                let _ = node.register(Atom::new("slow"), p1.clone()).await;
+                let linked = node.link(&p0, &p1).await.is_ok();
+                let mon = node.monitor(&p2, &p1).await;
+                let _ = node.send(&p1, OwnedTerm::atom("die")).await;
+                settle_local(&lw.w, &probe).await; // p1 is now inside terminate()
+                for _ in 0..6 { tokio::time::advance(std::time::Duration::from_secs(5)).await; settle_local(&lw.w, &probe).await; }
+                lw.w.gates.release_all_and_deactivate();
+                settle_local(&lw.w, &probe).await;
+                if linked { expect_p0.push(format!("exit:{}:", den_pid(&p1))); }
+                if let Ok(r) = mon { expect_p2.push(format!("down:{}:{}:", den_pid(&p1), den_ref(&r))); }
+                let still = node.registry().get(&p1).await.is_some();
+                let name_free = node.register(Atom::new("slow"), p0.clone()).await.is_ok();
+                if still || !name_free { res.violations.push(("terminated process still resolves (process table size differs)".into(), json!({"scenario": "terminate() taking half a minute", "identifier_still_resolves": still, "name_can_be_registered_again": name_free}))); }
+            }
             _ => {
                 let gs = node.spawn(GenServerProcess::new(HoldEcho, node.registry())).await.unwrap();
                 let p1 = node.spawn(Rec { name: "p1".into(), log: log.clone() }).await.unwrap();
@@ -404,7 +463,7 @@ fn awkward_exit_exec(which: &usize, ctx: &WorkerCtx) -> ExecResult {
         let got = |name: &str| -> Vec<String> { log.lock().unwrap().iter().filter(|x| x.0 == name).map(|x| x.1.clone()).collect() };
         let matches = |got: &Vec<String>, want: &Vec<String>| got.len() == want.len() && got.iter().zip(want).all(|(g, w)| g.starts_with(w.as_str()));
         let (g0, g2) = (got("p0"), got("p2"));
-        let label = ["link and monitor during terminate()", "crashed linked peer next to live ones", "gen_server linked to a failing process"][which];
+        let label = ["link and monitor during terminate()", "crashed linked peer next to live ones", "gen_server linked to a failing process", "terminate() taking half a minute"][which.min(3)];
         if !matches(&g0, &expect_p0) || !matches(&g2, &expect_p2) {
             res.violations.push(("exit notices or answers around an awkward neighbour are missing, duplicated or spurious".into(), json!({"scenario": label, "p0_received": g0, "p0_expected_prefixes": expect_p0, "p2_received": g2, "p2_expected_prefixes": expect_p2})));
         }
@@ -662,12 +721,14 @@ pub fn run(rep: &Report) -> Value {
     let primed_stats: Stats = for_all(rep, "sequential histories from a state with both names in use", &primed_cases, |c, ctx| run_sequence_from(&c.0, Some(c.1), ctx));
     let qb = [1usize, 2, 3, 4, 7, 33, 40];
     let qb_stats: Stats = for_all(rep, "messages queued behind a busy process", &qb, |c, ctx| queued_burst_exec(c, ctx));
-    let aw = [0usize, 1, 2];
+    let aw = [0usize, 1, 2, 3];
     let aw_stats: Stats = for_all(rep, "exit propagation around awkward neighbours", &aw, |c, ctx| awkward_exit_exec(c, ctx));
     let ge = [0usize, 1, 2, 3];
     let ge_stats: Stats = for_all(rep, "gen_event calls to installed, missing and failing handlers", &ge, |c, ctx| gen_event_calls(c, ctx));
     let gsd = [false, true];
     let gs_stats: Stats = for_all(rep, "gen_server caller terminates while its call is being handled", &gsd, |c, ctx| gen_server_caller_dies(c, ctx));
+    let fm = [0usize, 5];
+    let fm_stats: Stats = for_all(rep, "gen_server answering a caller whose mailbox is full", &fm, |c, ctx| full_mailbox_call_exec(c, ctx));
     let fwk = [0usize, 1, 2, 3];
     let fw_stats: Stats = for_all(rep, "gen_server call inside an envelope with another sender", &fwk, |c, ctx| forwarded_call_exec(c, ctx));
     let mut conc: Vec<(String, Stats)> = vec![];
@@ -677,7 +738,7 @@ pub fn run(rep: &Report) -> Value {
         let st = explore(rep, n, bound, std::time::Duration::from_secs(if thorough { 300 } else { 20 }), |ch, ctx| concurrent(ch, ctx, i));
         conc.push((n.to_string(), st));
     }
-    let states = seq_stats.executions + primed_stats.executions + gs_stats.executions + fw_stats.executions + ge_stats.executions + qb_stats.executions + aw_stats.executions + conc.iter().map(|c| c.1.executions).sum::<u64>();
+    let states = fm_stats.executions + seq_stats.executions + primed_stats.executions + gs_stats.executions + fw_stats.executions + ge_stats.executions + qb_stats.executions + aw_stats.executions + conc.iter().map(|c| c.1.executions).sum::<u64>();
     let transitions = seq_stats.transitions + conc.iter().map(|c| c.1.transitions).sum::<u64>();
     let mut samples = vec![json!({"sequential_history": format!("{:?}", cases[cases.len() / 3])}), json!({"sequential_history": format!("{:?}", cases[cases.len() - 11])})];
     for c in &conc { samples.extend(c.1.samples.iter().take(1).cloned()); }
